@@ -35,7 +35,33 @@ fn valid_query() -> Vec<(String, String)> {
 
 pub fn gen_bad(rng: &mut Rng) -> Bad {
     let big = "18446744073709551616";
-    match rng.below(10) {
+    match rng.below(11) {
+        // ---- a page token (a query parameter carrying base64url JSON) whose document is
+        // well formed but followed by other bytes, or is otherwise not a token
+        10 => {
+            let doc = r#"{"v":"v1","page_start":{"last":"item-7"}}"#;
+            let (text, class): (String, &str) = match rng.below(7) {
+                0 => (format!("{doc}}}"), "page-token-json-trailing-brace"),
+                1 => (format!("{doc}garbage"), "page-token-json-trailing-garbage"),
+                2 => (format!("{doc}{doc}"), "page-token-two-documents"),
+                3 => (format!("{doc},"), "page-token-json-trailing-comma"),
+                4 => (format!("{doc}\u{0}"), "page-token-json-trailing-nul"),
+                5 => (doc.replace("\"v1\"", "\"v2\""), "page-token-unknown-version"),
+                _ => (doc.replace("\"item-7\"", "7"), "page-token-selector-wrong-type"),
+            };
+            const B64: &[u8; 64] = b"ABCDEFGHIJKLMNOPQRSTUVWXYZabcdefghijklmnopqrstuvwxyz0123456789-_";
+            let mut tok = String::new();
+            for ch in text.as_bytes().chunks(3) {
+                let b = [ch[0], *ch.get(1).unwrap_or(&0), *ch.get(2).unwrap_or(&0)];
+                let n = (u32::from(b[0]) << 16) | (u32::from(b[1]) << 8) | u32::from(b[2]);
+                tok.push(B64[(n >> 18) as usize & 63] as char);
+                tok.push(B64[(n >> 12) as usize & 63] as char);
+                tok.push(if ch.len() > 1 { B64[(n >> 6) as usize & 63] as char } else { '=' });
+                tok.push(if ch.len() > 2 { B64[n as usize & 63] as char } else { '=' });
+            }
+            let t = format!("/pag?page_token={}", tok.replace('=', "%3D"));
+            Bad { position: "query", class: class.into(), req: Req::new("GET", &t), raw: None, half_close: false }
+        }
         // ---- a query whose fields are all optional: dropping or ignoring the query
         // string would turn these into valid requests
         9 => {
@@ -300,13 +326,19 @@ pub fn gen_bad(rng: &mut Rng) -> Bad {
                 }
             };
             let body = raw.unwrap_or_else(|| serde_json::to_vec(&b).unwrap());
-            Bad {
-                position: "json-body",
-                class,
-                req: Req::new("POST", "/json").header("content-type", "application/json").body(&body),
-                raw: None,
-                half_close: false,
+            let mut req = Req::new("POST", "/json").header("content-type", "application/json").body(&body);
+            let mut class = class;
+            if rng.chance(1, 8) {
+                // an ill-formed start delivered as a chunk of its own, followed by a complete
+                // valid document: invalid as a whole, whichever pieces a reader looks at
+                let prefix: &[u8] = *rng.pick(&[&b"["[..], b"garbage ", b"{\"u\":300}", b"{\"s\":1,", b"\xff\xfe", b"null"]);
+                let mut whole = prefix.to_vec();
+                whole.extend_from_slice(&serde_json::to_vec(&valid_body()).unwrap());
+                req = Req::new("POST", "/json").header("content-type", "application/json").body(&whole);
+                req.chunked = Some(vec![prefix.len(), 1 << 20]);
+                class = "valid-document-after-an-ill-formed-first-chunk".into();
             }
+            Bad { position: "json-body", class, req, raw: None, half_close: false }
         }
         // ---- content type other than the endpoint's
         5 => {
@@ -421,6 +453,8 @@ pub fn run(seed: u64, threads: usize, per_thread: usize) -> Report {
                             "absolute-form"
                         } else if bad.raw.is_some() {
                             "raw"
+                        } else if bad.req.chunked.is_some() {
+                            "chunked-as-given"
                         } else if !bad.req.body.is_empty() && rng.chance(1, 3) {
                             bad.req.chunked = Some(vec![1 + rng.usize(40)]);
                             "chunked"
